@@ -4,28 +4,113 @@
  * so every allocation request made by carquet (and by the harness itself) passes through here
  * and then reaches the sanitizer's allocator.  Disarmed by default: no behavioural change for
  * components that do not use it.
+ *
+ * Two ways to choose the failing requests:
+ *   h_alloc_arm(k)            the k-th request after arming fails (k = 0: count only)
+ *   h_alloc_arm_set(v, n)     the requests whose 1-based indices are listed in v[0..n) fail
+ *   h_alloc_arm_arena(k)      the k-th *arena* request (carquet_arena_alloc/_calloc/_alloc_aligned/
+ *                             _strdup/_strndup/_memdup called from outside arena.c) returns NULL, as it
+ *                             would if the arena needed a new block at that moment and malloc refused;
+ *                             malloc-level requests are neither counted nor failed in this mode
+ * strdup() is interposed as well (it is an allocation request the library makes).
+ * When a failure is injected the return addresses of the requesting stack are recorded in
+ * h_alloc_fail_pcs (frame-pointer walk, no allocation, no symbolisation), so that the caller can
+ * name the call site afterwards.
  */
 #include <stddef.h>
+#include <unistd.h>
 #include "common.h"
 
 void* __real_malloc(size_t);
 void* __real_calloc(size_t, size_t);
 void* __real_realloc(void*, size_t);
+char* __real_strdup(const char*);
 
 long h_alloc_count = 0;        /* requests seen while counting */
 long h_alloc_fail_at = 0;      /* 1-based index of the request that fails; 0 = never */
 int  h_alloc_counting = 0;     /* only count between h_alloc_arm()/h_alloc_disarm() */
 long h_alloc_fired = 0;        /* how many injected failures actually happened */
+static int h_alloc_level = 0;  /* 0: malloc/calloc/realloc/strdup requests; 1: arena requests */
+static const long* h_alloc_set = NULL;
+static int h_alloc_set_n = 0;
 
-void h_alloc_arm(long fail_at) { h_alloc_count = 0; h_alloc_fail_at = fail_at; h_alloc_counting = 1; }
-long h_alloc_disarm(void) { h_alloc_counting = 0; h_alloc_fail_at = 0; return h_alloc_count; }
+void* h_alloc_fail_pcs[H_ALLOC_MAX_PCS];
+int   h_alloc_fail_npcs = 0;
+long  h_alloc_first_fired_at = 0;
+int   h_alloc_report_fd = -1;  /* if >= 0: the record of the first injected failure is also written there at once
+                                  (so that it survives a crash of the code under test) */
 
-static int should_fail(void) {
-    if (!h_alloc_counting) return 0;
+void h_alloc_arm(long fail_at) {
+    h_alloc_level = 0;
+    h_alloc_count = 0; h_alloc_fail_at = fail_at; h_alloc_set = NULL; h_alloc_set_n = 0;
+    h_alloc_fail_npcs = 0; h_alloc_first_fired_at = 0; h_alloc_counting = 1;
+}
+void h_alloc_arm_arena(long fail_at) { h_alloc_arm(fail_at); h_alloc_level = 1; }
+void h_alloc_arm_set(const long* idx, int n) {
+    h_alloc_level = 0;
+    h_alloc_count = 0; h_alloc_fail_at = 0; h_alloc_set = idx; h_alloc_set_n = n;
+    h_alloc_fail_npcs = 0; h_alloc_first_fired_at = 0; h_alloc_counting = 1;
+}
+long h_alloc_disarm(void) { h_alloc_counting = 0; h_alloc_fail_at = 0; h_alloc_set = NULL; h_alloc_set_n = 0; return h_alloc_count; }
+long h_alloc_seen(void) { return h_alloc_count; }
+
+/* frame-pointer walk (the harness and carquet are compiled with -fno-omit-frame-pointer) */
+__attribute__((no_sanitize("address", "undefined"), noinline))
+static void record_stack(void** fp0) {
+    void** fp = fp0;
+    int n = 0;
+    char* lo = (char*)&fp;
+    while (fp && n < H_ALLOC_MAX_PCS) {
+        if ((char*)fp < lo || (char*)fp > lo + (8 << 20) || ((uintptr_t)fp & 7)) break;
+        void* ret = fp[1];
+        if (!ret) break;
+        h_alloc_fail_pcs[n++] = ret;
+        void** next = (void**)fp[0];
+        if (next <= fp) break;
+        fp = next;
+    }
+    h_alloc_fail_npcs = n;
+}
+
+static int should_fail_at(void** fp, int level) {
+    if (!h_alloc_counting || level != h_alloc_level) return 0;
     long n = __atomic_add_fetch(&h_alloc_count, 1, __ATOMIC_SEQ_CST);
-    if (h_alloc_fail_at && n == h_alloc_fail_at) { h_alloc_fired++; return 1; }
+    int fail = 0;
+    if (h_alloc_fail_at && n == h_alloc_fail_at) fail = 1;
+    for (int i = 0; i < h_alloc_set_n && !fail; i++) if (h_alloc_set[i] == n) fail = 1;
+    if (fail) {
+        if (!h_alloc_first_fired_at) {
+            h_alloc_first_fired_at = n; record_stack(fp);
+            if (h_alloc_report_fd >= 0) {
+                long hdr[3] = { 1 /* message tag */, n, h_alloc_fail_npcs };
+                ssize_t w = write(h_alloc_report_fd, hdr, sizeof hdr);
+                w = write(h_alloc_report_fd, h_alloc_fail_pcs, sizeof(void*) * (size_t)h_alloc_fail_npcs);
+                (void)w;
+            }
+        }
+        h_alloc_fired++;
+        return 1;
+    }
     return 0;
 }
-void* __wrap_malloc(size_t n) { return should_fail() ? NULL : __real_malloc(n); }
-void* __wrap_calloc(size_t a, size_t b) { return should_fail() ? NULL : __real_calloc(a, b); }
-void* __wrap_realloc(void* p, size_t n) { return should_fail() ? NULL : __real_realloc(p, n); }
+static int should_fail(void** fp) { return should_fail_at(fp, 0); }
+void* __wrap_malloc(size_t n) { return should_fail((void**)__builtin_frame_address(0)) ? NULL : __real_malloc(n); }
+void* __wrap_calloc(size_t a, size_t b) { return should_fail((void**)__builtin_frame_address(0)) ? NULL : __real_calloc(a, b); }
+void* __wrap_realloc(void* p, size_t n) { return should_fail((void**)__builtin_frame_address(0)) ? NULL : __real_realloc(p, n); }
+char* __wrap_strdup(const char* p) { return should_fail((void**)__builtin_frame_address(0)) ? NULL : __real_strdup(p); }
+
+/* arena entry points as seen from the other translation units */
+struct carquet_arena;
+void* __real_carquet_arena_alloc(struct carquet_arena*, size_t);
+void* __real_carquet_arena_calloc(struct carquet_arena*, size_t, size_t);
+void* __real_carquet_arena_alloc_aligned(struct carquet_arena*, size_t, size_t);
+char* __real_carquet_arena_strdup(struct carquet_arena*, const char*);
+char* __real_carquet_arena_strndup(struct carquet_arena*, const char*, size_t);
+void* __real_carquet_arena_memdup(struct carquet_arena*, const void*, size_t);
+#define AFAIL() should_fail_at((void**)__builtin_frame_address(0), 1)
+void* __wrap_carquet_arena_alloc(struct carquet_arena* a, size_t n) { return (n && AFAIL()) ? NULL : __real_carquet_arena_alloc(a, n); }
+void* __wrap_carquet_arena_calloc(struct carquet_arena* a, size_t c, size_t n) { return (c && n && AFAIL()) ? NULL : __real_carquet_arena_calloc(a, c, n); }
+void* __wrap_carquet_arena_alloc_aligned(struct carquet_arena* a, size_t n, size_t al) { return (n && AFAIL()) ? NULL : __real_carquet_arena_alloc_aligned(a, n, al); }
+char* __wrap_carquet_arena_strdup(struct carquet_arena* a, const char* s) { return (s && AFAIL()) ? NULL : __real_carquet_arena_strdup(a, s); }
+char* __wrap_carquet_arena_strndup(struct carquet_arena* a, const char* s, size_t n) { return (s && AFAIL()) ? NULL : __real_carquet_arena_strndup(a, s, n); }
+void* __wrap_carquet_arena_memdup(struct carquet_arena* a, const void* s, size_t n) { return (s && n && AFAIL()) ? NULL : __real_carquet_arena_memdup(a, s, n); }
